@@ -209,6 +209,13 @@ def decide(pid, tier, seed, results, t0, replay=False):
 		else:
 			unlisted.append(v)
 
+	if not replay:
+		import glob
+		for old in glob.glob(os.path.join(HERE, "replays", f"{pid}-*.json")):
+			try:
+				os.unlink(old)      # witnesses of earlier runs of this property
+			except OSError:
+				pass
 	lines = []
 	for k, v in known_hits:
 		lines.append(f"KNOWN-FINDING: property={pid} {k.get('what_fails', k['signature'])} [signature={k['signature']} seen={v['count']}]")
